@@ -175,18 +175,18 @@ theorem union_loop_tie (g : Nat → Nat) (mh : Data.MHeap) (h0 : Data.Heap) (s s
     have va : Data.view h s = Data.view h0 s := fr.view_eq s hb1
     have vb : Data.view h s2 = Data.view h0 s2 := fr.view_eq s2 hb2
     have tn : ∀ n : Nat, (n : Int).toNat = n := Int.toNat_natCast
+    -- what a round does after it has appended `x`: the loop again, on the grown result slice (stated on the VALUE of the
+    -- append, so that it applies however the source writes the append: in place, or in a helper that returns the set)
     have step : ∀ (x : Int) (m1 m2 : Nat) (i1 i2 : Int), i1 = m1 → i2 = m2 → m1 ≤ s.len → m2 ≤ s2.len →
         (s.len - m1) + (s2.len - m2) < fuelT → (s.len - m1) + (s2.len - m2) < fuelM →
-        (Go.append (sl s3) x >>= fun a => IntSet_Union_loop1 ⟨sl s⟩ ⟨sl s2⟩ fuelT ⟨a⟩ i1 i2) ⟨h, mh, g⟩ =
+        IntSet_Union_loop1 ⟨sl s⟩ ⟨sl s2⟩ fuelT ⟨sl (Data.append g h s3 x).2⟩ i1 i2 ⟨(Data.append g h s3 x).1, mh, g⟩ =
         .ok (⟨sl (Data.unionLoop g (Data.view h0 s) (Data.view h0 s2) fuelM m1 m2 (Data.append g h s3 x).1 (Data.append g h s3 x).2).2⟩,
               (s.len : Int), (s2.len : Int))
           ⟨(Data.unionLoop g (Data.view h0 s) (Data.view h0 s2) fuelM m1 m2 (Data.append g h s3 x).1 (Data.append g h s3 x).2).1, mh, g⟩ := by
       intro x m1 m2 i1 i2 e1 e2 hm1 hm2 hT hM
       subst e1 e2
       obtain ⟨p1, _, p3, p4, _⟩ := Data.append_spec g h s3 x w3 base hb3
-      rw [bind_ok (append_sl _ _ _ _ _)]
       exact ih fuelM m1 m2 _ _ (fr.trans p3) p1 p4 hm1 hm2 hT hM
-    simp only [bind_apply] at step
     rw [IntSet_Union_loop1, Data.unionLoop]
     simp only [ite_apply, bind_apply, pure_apply]
     simp only [len_sl, la, lb]
@@ -194,16 +194,21 @@ theorem union_loop_tie (g : Nat → Nat) (mh : Data.MHeap) (h0 : Data.Heap) (s s
     · -- both cursors inside: compare the heads
       rcases Int.lt_trichotomy ((Data.view h0 s).getD n1 0) ((Data.view h0 s2).getD n2 0) with c | c | c
       · go_decide; simp only [va, vb]; go_decide
+        simp only [append_sl, bind_apply, pure_apply]
         refine step _ (n1 + 1) n2 _ _ ?_ ?_ ?_ ?_ ?_ ?_ <;> omega
       · go_decide; simp only [va, vb]; go_decide
+        simp only [append_sl, bind_apply, pure_apply]
         refine step _ (n1 + 1) (n2 + 1) _ _ ?_ ?_ ?_ ?_ ?_ ?_ <;> omega
       · go_decide; simp only [va, vb]; go_decide
+        simp only [append_sl, bind_apply, pure_apply]
         refine step _ n1 (n2 + 1) _ _ ?_ ?_ ?_ ?_ ?_ ?_ <;> omega
     · -- the second operand is exhausted
       go_decide; simp only [va]
+      simp only [append_sl, bind_apply, pure_apply]
       refine step _ (n1 + 1) n2 _ _ ?_ ?_ ?_ ?_ ?_ ?_ <;> omega
     · -- the first operand is exhausted
       go_decide; simp only [vb]
+      simp only [append_sl, bind_apply, pure_apply]
       refine step _ n1 (n2 + 1) _ _ ?_ ?_ ?_ ?_ ?_ ?_ <;> omega
     · -- both exhausted: the loop ends, the cursors are the lengths
       go_decide
